@@ -251,6 +251,44 @@ CLAIMED['C09'] = {
     'note': 'Trusted: Coq kernel; hand transcriptions Context.v / CtxReader.v / Walker / Reader; Spec/C09_spec.v; extraction.',
     'technique': 'Coq proof (heap invariant over the reader run: open tree is spine-shaped, add_segment extends the traversal at the end) + extracted-model correspondence + oracle',
 }
+CLAIMED['C10'] = {
+    'text': 'PARTIAL. Theorems over the heap model of the X12DataNode API (Props/C10.v): a copy is made of freshly allocated objects '
+            'only, its inner parent pointers stay inside it, it iterates like the original, and deleting / setting values through it '
+            'leaves every original object untouched (for set_value when the copied node had no parent object: otherwise a proved '
+            'counterexample — the copy\'s root keeps the original\'s parent); exists / count / first / select agree whenever select '
+            'completes; set_value changes exactly one segment object and in it exactly the addressed element, and get_value then '
+            'returns the value (hypotheses shown necessary by proved counterexamples). Not proved: placement by add_* in map order, '
+            'delete_segment. The check runs random API scripts on model and implementation and applies the laws to the '
+            'implementation on trees from generated documents.',
+    'design_ref': 'DESIGN.md §6 C10, §11',
+    'note': 'Trusted: Coq kernel; hand transcription Context.v / CtxReader.v; Spec/C10_spec.v; extraction.',
+    'technique': 'Coq proof (heap reasoning: allocation only appends, reachability through children; C17 segment laws reused) + extracted-model correspondence + law oracle',
+}
+CLAIMED['C02'] = {
+    'text': 'PARTIAL. Theorem C02_conformant_segment_accepted: for every map satisfying the computable predicates valid_wf / fmt_wf and '
+            'every data segment that conforms to its node (no surplus elements; every value draws no code from its definition in the '
+            'clause-by-clause sense of C15; every syntax note holds in the sense of C14) validation returns true with no error event; '
+            'with C04_consistent_silent for the envelope and C07_walker_total for the walker never raising. The document level (the '
+            'walker locating every segment of a map-ordered document, the acknowledgement accepting everything) is NOT a theorem: '
+            'the check generates conformant documents for every map the index selects (all 35 document maps thorough) and requires '
+            'verdict True, no error call, AK5/AK9 = A; four recorded findings.',
+    'design_ref': 'DESIGN.md §6 C02, §11',
+    'note': 'Trusted: Coq kernel; hand transcriptions Element/Syntax/Validation/MapLoad; harness/confgen.py is my reading of '
+            '"conformant"; extraction.',
+    'technique': 'Coq proof (decomposition of segment validation into independent per-position outcomes; C15/C14/C13 reused) + conformant-document generation on the implementation + extracted-model correspondence',
+}
+CLAIMED['C03'] = {
+    'text': 'PARTIAL. Theorems C03_single_element_fault_localised and C03_extra_element_rejected: replacing one simple element of a '
+            'conformant segment by a value that draws the code set cds from its definition makes validation return false with every '
+            'error filed at that position, naming that element, carrying exactly the codes of cds; one surplus element gives exactly '
+            'one error, code 3 (side conditions each shown necessary). Segment-level faults, the position/line attachment in the '
+            'error tree and the non-interference with other sets are NOT theorems: the check injects single faults of 12 kinds into '
+            'conformant documents and requires verdict False, the matching code at the source line and element position, and no '
+            'collateral error.',
+    'design_ref': 'DESIGN.md §6 C03, §11',
+    'note': 'Trusted: as C02; the fault catalogue of harness/props/C03.py is my reading of the property.',
+    'technique': 'Coq proof (per-position decomposition of segment validation) + single-fault injection on the implementation',
+}
 
 NOT_YET = {
 }
